@@ -1231,6 +1231,16 @@ func (d *drv) hookEngine() {
 			d.installs++
 			d.tr.Emit(vt.Ev{"ev": "install", "old": in.OldID, "new": in.NewID, "levels": lv, "tabs": tabs, "nadd": len(in.Added), "ndel": len(in.Deleted)})
 		},
+		Compaction: func(c *leveldb.VerifCompactionInfo) {
+			in0, in1 := c.Inputs[0], c.Inputs[1]
+			if in0 == nil {
+				in0 = []int64{}
+			}
+			if in1 == nil {
+				in1 = []int64{}
+			}
+			d.tr.Emit(vt.Ev{"ev": "compaction", "vid": c.VersionID, "level": c.SourceLevel, "in0": in0, "in1": in1, "trivial": b2i(c.Trivial), "typ": c.Typ})
+		},
 		Ref: func(_ uintptr, kind string, vid int64, files [][]int64, added, deleted []int64) {
 			if kind == "ref" || kind == "rel" {
 				d.tr.Emit(vt.Ev{"ev": "vref", "kind": kind, "vid": vid})
